@@ -30,6 +30,7 @@ def numeric_tokens(text):
 
 class C04(PropBase):
     id = "C04"
+    needs_cli = True     # the borrowed git-storage cases (C08's) run the real binary too
     REPEATS = 3
 
     def gen(self, rng, tier, focus=None):
@@ -152,6 +153,12 @@ class C04(PropBase):
                 klass += "+symlinked-dir"
             out.append({"op": "run", "kind": klass, "cfg": cfg, "txns": txns, "text": text_a, "files": files,
                         "perm": perm, "want": OUTS})
+        # the same set of transactions supplied through git storage (files of one commit, byte-identical copies among
+        # them) must load like the filesystem arrangement of that commit: C08's comparison, borrowed here
+        if not focus:
+            import c08
+            for c in c08.PROP.gen(rng, "quick", focus=True):
+                out.append(dict(c, delegate="c08", kind="git:" + str(c.get("kind", ""))))
         return out
 
     # the implementation is run on both arrangements, several times in fresh processes
